@@ -10,7 +10,7 @@ emits *entries* (file, function, construct text, live?, construct):
   CGlobalDecl       ``global`` / ``nonlocal`` declaration inside a function
   CStore r          attribute store, subscript store, ``del``, augmented
                     assignment or mutating method call whose target is rooted
-                    at r = RGlobal (module-level name, imported name, class
+                    at r = RModule (an imported module/object) | RGlobal (module-level name, class
                     name, alias of one) | RClass (cls, type(self),
                     self.__class__) | RUnknown (call result, ...).  Stores
                     rooted at a local / parameter / self are counted only.
@@ -22,9 +22,13 @@ emits *entries* (file, function, construct text, live?, construct):
   CSetEscape        a set-valued expression flows where the translator cannot
                     follow it (unknown callee, container, tuple, yield)
   COpen m           open()/.open(); m = WRead | WWrite | WUnknownMode
-  CFileEffect       write_text, pickle.dump, unlink, rename, mkdir, ...
-  CNondet           clock, pid, environment, random, id(), hash(), directory
-                    listing, sys.argv
+  CFileEffect f     f = FPickleWrite (pickle/json dump) | FPickleRead (pickle
+                    load: state of an earlier run read back) | FWriteCall
+                    (write_text, ...) | FFsChange (unlink, rename, mkdir, ...)
+  CNondet n         ambient input: n = NEnv (environment, cwd, host) | NArgv |
+                    NClock | NRandom (random, uuid, pid, temp names) |
+                    NIdentity (id()/hash() called or used as a key function)
+                    | NListing (listdir, glob) | NOther
   CDynamic          exec, eval, __import__, importlib, setattr, globals(), ...
   CUnknown          a construct the translator does not understand in a
                     position that matters
@@ -105,6 +109,35 @@ HARMLESS_DECORATORS = {'staticmethod', 'classmethod', 'property', 'wraps',
                        'total_ordering', 'dataclass', 'unique', 'overload'}
 CACHE_DECORATORS = {'lru_cache', 'cache', 'cached_property', 'memoize',
                     'memoized', 'singledispatch'}
+
+NK_ENV = {'getenv', 'getcwd', 'cwd', 'gethostname', 'getuser', 'node',
+          'platform', 'cpu_count', 'expanduser', 'home'}
+NK_CLOCK = {'now', 'today', 'utcnow', 'time', 'time_ns', 'perf_counter',
+            'monotonic', 'process_time', 'clock', 'stat', 'getmtime'}
+NK_RANDOM = {'urandom', 'getpid', 'getppid', 'uuid1', 'uuid4', 'random',
+             'randint', 'randrange', 'choice', 'shuffle', 'sample', 'uniform',
+             'mkstemp', 'mkdtemp', 'NamedTemporaryFile', 'TemporaryDirectory',
+             'gettempdir', 'getrandbits', 'token_hex', 'get_ident'}
+NK_LISTING = {'listdir', 'scandir', 'iterdir', 'glob', 'rglob', 'iglob',
+              'walk'}
+NK_MODULE = {'random': 'NRandom', 'uuid': 'NRandom', 'secrets': 'NRandom',
+             'tempfile': 'NRandom', 'time': 'NClock', 'glob': 'NListing',
+             'socket': 'NEnv', 'platform': 'NEnv', 'getpass': 'NEnv'}
+
+
+def nkind_of(name):
+    if name in ('id', 'hash'):
+        return 'NIdentity'
+    if name in NK_ENV:
+        return 'NEnv'
+    if name in NK_CLOCK:
+        return 'NClock'
+    if name in NK_RANDOM:
+        return 'NRandom'
+    if name in NK_LISTING:
+        return 'NListing'
+    return 'NOther'
+
 
 KINDS = ('KEmpty', 'KInt', 'KStr', 'KFloat', 'KOther', 'KUnknown')
 
@@ -248,6 +281,7 @@ class FuncInfo:
         self.set_locals = {}        # local name -> kind (set-valued)
         self.list_kinds = {}        # local list name -> element kind
         self.int_locals = set()
+        self.local_imports = set()
         self.self_name = None
         self.cls_name = None
 
@@ -383,6 +417,7 @@ class FileAudit:
             # closures see the enclosing function's locals
             info.locals |= parent.locals
             info.aliases |= parent.aliases
+            info.local_imports |= parent.local_imports
             info.self_name = info.self_name or parent.self_name
             info.cls_name = info.cls_name or parent.cls_name
             for k, v in parent.set_locals.items():
@@ -413,6 +448,8 @@ class FileAudit:
             elif isinstance(sub, (ast.Import, ast.ImportFrom)):
                 for alias in sub.names:
                     names.add((alias.asname or alias.name).split('.')[0])
+                    info.local_imports.add(
+                        (alias.asname or alias.name).split('.')[0])
             elif isinstance(sub, (ast.FunctionDef, ast.AsyncFunctionDef,
                                   ast.ClassDef)):
                 names.add(sub.name)
@@ -462,8 +499,13 @@ class FileAudit:
                 return 'RModuleInit'
             if name in info.aliases:
                 return 'RGlobal'
+            if name in info.local_imports:
+                return 'RModule'
             if name in info.locals:
                 return 'RLocal'
+            if name in self.imported and name not in self.module_names \
+                    and name not in self.class_names:
+                return 'RModule'
             return 'RGlobal'
         if isinstance(root, (ast.Constant, ast.JoinedStr, ast.List, ast.Dict,
                              ast.Set, ast.ListComp, ast.Tuple, ast.BinOp)):
@@ -796,7 +838,8 @@ class FileAudit:
                 mod = (stmt.module or '').split('.')[0] \
                     if isinstance(stmt, ast.ImportFrom) else top
                 if mod in NONDET_MODULES or top in NONDET_MODULES:
-                    self.emit(func, text_of(stmt), 'CNondet', live)
+                    kind = NK_MODULE.get(mod, NK_MODULE.get(top, 'NOther'))
+                    self.emit(func, text_of(stmt), f'CNondet {kind}', live)
                     break
             return
         if isinstance(stmt, (ast.Pass, ast.Break, ast.Continue)):
@@ -1040,10 +1083,11 @@ class FileAudit:
         if isinstance(node, ast.Attribute):
             if isinstance(node.value, ast.Name) and node.value.id == 'sys' \
                     and node.attr in ('argv', 'flags', 'hash_info'):
-                self.emit(func, text_of(node), 'CNondet', live)
+                self.emit(func, text_of(node), 'CNondet NArgv'
+                          if node.attr == 'argv' else 'CNondet NEnv', live)
             if isinstance(node.value, ast.Name) and node.value.id == 'os' \
                     and node.attr == 'environ':
-                self.emit(func, text_of(node), 'CNondet', live)
+                self.emit(func, text_of(node), 'CNondet NEnv', live)
         if isinstance(node, (ast.Tuple, ast.List, ast.Dict)):
             elts = node.elts if not isinstance(node, ast.Dict) \
                 else [v for v in node.values if v is not None]
@@ -1096,13 +1140,26 @@ class FileAudit:
                 and root_of(recv)[0].id in FILE_MODULES
                 and not (name == 'write'
                          and root_of(recv)[0].id == 'sys'))):
-            self.emit(func, text_of(node), 'CFileEffect', live)
+            if name == 'dump':
+                fkind = 'FPickleWrite'
+            elif name in ('write_text', 'write_bytes', 'savetxt', 'to_csv',
+                          'tofile', 'save', 'savez', 'write', 'truncate'):
+                fkind = 'FWriteCall'
+            else:
+                fkind = 'FFsChange'
+            self.emit(func, text_of(node), f'CFileEffect {fkind}', live)
+        elif recv is not None and name in ('load', 'loads') \
+                and isinstance(root_of(recv)[0], ast.Name) \
+                and root_of(recv)[0].id in ('pickle', 'cPickle', 'dill',
+                                            'marshal', 'shelve', 'joblib'):
+            # state persisted by an earlier run is read back
+            self.emit(func, text_of(node), 'CFileEffect FPickleRead', live)
         elif name in PROCESS_STATE_CALLS and (
                 recv is not None or name in ('exit',)):
             rroot, _ = root_of(recv) if recv is not None else (None, False)
             if recv is None or (isinstance(rroot, ast.Name)
                                 and self.is_global_name(info, rroot.id)):
-                self.emit(func, text_of(node), 'CStore RGlobal', live)
+                self.emit(func, text_of(node), 'CStore RModule', live)
         # --- nondeterminism / dynamic features ---
         if name in DYNAMIC_CALLS:
             self.emit(func, text_of(node), 'CDynamic', live)
@@ -1129,13 +1186,14 @@ class FileAudit:
                         and rroot.id not in ('os', 'Path', 'datetime'):
                     flag = False
             if flag:
-                self.emit(func, text_of(node), 'CNondet', live)
+                self.emit(func, text_of(node), f'CNondet {nkind_of(name)}',
+                          live)
 
         # hash / id handed over as a function (sorted(..., key=hash))
         for sub in argl:
             if isinstance(sub, ast.Name) and sub.id in ('hash', 'id') \
                     and self.is_global_name(info, sub.id):
-                self.emit(func, text_of(node), 'CNondet', live)
+                self.emit(func, text_of(node), 'CNondet NIdentity', live)
 
         # --- mutation of a global through a method call ---
         if recv is not None and name in MUTATORS:
@@ -1146,7 +1204,7 @@ class FileAudit:
                 self.emit(func, 'set.pop ' + text_of(node),
                           f'CSetLoop {self.set_kind(info, recv)} SinkOrdered',
                           live)
-            if rclass in ('RGlobal', 'RClass'):
+            if rclass in ('RGlobal', 'RClass', 'RModule'):
                 self.emit(func, text_of(node, 100) + ' (call)',
                           f'CStore {rclass}', live)
             elif rclass == 'RUnknown' and name not in ('write', 'pop', 'seek'):
